@@ -704,6 +704,10 @@ func (s *h) renderLog() string {
 // ctx lets judge count the distinct storage-call logs (c.State).
 var ctx *vlib.Ctx
 
+// Experiments only: C41_NOMARKERCHECK=1 switches the "success implies own marker exists" checks off,
+// to see whether a defect is also caught by its consequences (deletion under a holder).
+var noMarkerCheck = os.Getenv("C41_NOMARKERCHECK") != ""
+
 func isOriginMarkerRefusal(err error) bool {
 	return base.IsCorruptionError(err) && strings.Contains(err.Error(), "origin marker object")
 }
@@ -819,7 +823,7 @@ func judge(hh vsched.Harness, x *vsched.Exec) (outcome, class, desc string) {
 				if !shadow[obj] {
 					return fail("create-succeeded-without-object", fmt.Sprintf("step %d: the creation by P%d (Create, Write, Finish) reported success but the object is not in the store", k, e.Prov+1))
 				}
-				if !shadow[ref(e.Prov)] {
+				if !shadow[ref(e.Prov)] && !noMarkerCheck {
 					return fail("create-without-ref-marker", fmt.Sprintf("step %d: the creation by P%d reported success but its ref marker %s does not exist", k, e.Prov+1, ref(e.Prov)))
 				}
 			} else if !faultIn[e.Prov] {
@@ -844,7 +848,7 @@ func judge(hh vsched.Harness, x *vsched.Exec) (outcome, class, desc string) {
 				if !shadow[obj] {
 					return fail("attach-succeeded-on-deleted-object", fmt.Sprintf("step %d: AttachRemoteObjects of P%d returned nil but the object is already deleted", k, e.Prov+1))
 				}
-				if !shadow[ref(e.Prov)] {
+				if !shadow[ref(e.Prov)] && !noMarkerCheck {
 					return fail("attach-without-ref-marker", fmt.Sprintf("step %d: AttachRemoteObjects of P%d returned nil but its ref marker %s does not exist", k, e.Prov+1, ref(e.Prov)))
 				}
 			} else {
@@ -956,7 +960,7 @@ func judge(hh vsched.Harness, x *vsched.Exec) (outcome, class, desc string) {
 		if final[m] && !holder[i] && !lastErr[i] {
 			return fail("stray-ref-marker", fmt.Sprintf("ref marker %s of P%d remains although P%d holds no reference and its last creation/attach/Remove reported success", m, i+1, i+1))
 		}
-		if !final[m] && holder[i] {
+		if !final[m] && holder[i] && !noMarkerCheck {
 			return fail("holder-without-ref-marker", fmt.Sprintf("P%d holds a reference but its marker %s is gone", i+1, m))
 		}
 	}
@@ -989,9 +993,10 @@ func judge(hh vsched.Harness, x *vsched.Exec) (outcome, class, desc string) {
 
 type plan struct {
 	sc                  scen
-	quick, thorough     int // preemption bounds (storage-level mode: 0 = all interleavings)
-	qenv, tenv          int // injected store failures per execution (fault scenarios)
-	weight              float64
+	quick, thorough     int     // preemption bounds (storage-level mode: 0 = all interleavings)
+	qenv, tenv          int     // injected store failures per execution (fault scenarios)
+	weight              float64 // share of the time budget (proportional to the measured size)
+	qweight             float64 // quick tier, if different
 	quickTier, thorTier bool
 }
 
@@ -1018,11 +1023,11 @@ func plans() []plan {
 	// S0: the creator keeps its reference and reads while P2 attaches, reads and removes again (the
 	// object must survive everything P2 does or fails to do).
 	s0 := [][]step{{R}, {A(0), R, X}}
-	g := func(name string, nprov int, pre []int, th [][]step, w float64, quick bool) plan {
-		return plan{sc: scen{name: name, nprov: nprov, pre: pre, threads: th, gated: true}, weight: w, quickTier: quick, thorTier: true}
+	g := func(name string, nprov int, pre []int, th [][]step, w, qw float64) plan {
+		return plan{sc: scen{name: name, nprov: nprov, pre: pre, threads: th, gated: true}, weight: w, qweight: qw, quickTier: qw > 0, thorTier: true}
 	}
 	f := func(name string, nprov int, pre []int, th [][]step, q, t int, w float64) plan {
-		return plan{sc: scen{name: name, nprov: nprov, pre: pre, threads: th}, quick: q, thorough: t, weight: w, quickTier: true, thorTier: true}
+		return plan{sc: scen{name: name, nprov: nprov, pre: pre, threads: th}, quick: q, thorough: t, weight: w, qweight: 2 * w, quickTier: true, thorTier: true}
 	}
 	// Fault scenarios (storage-level mode with a failing store: all interleavings x failures at every
 	// position). The variants have different names because the set of answers of a Choose and the
@@ -1042,22 +1047,22 @@ func plans() []plan {
 	p2 := []int{1}
 	ps := []plan{
 		// storage-level mode: every interleaving of the storage calls (bound 0 is already unbounded)
-		g("S1-all", 2, nil, s1, 0.2, true),
-		g("S4-all", 2, nil, s4, 0.2, true),
-		g("S3-all", 3, p2, s3, 1, true),
-		g("S7-all", 3, p2, s7, 1, true),
-		g("S2-all", 3, nil, s2, 3, true),
-		g("S5-all", 3, nil, s5, 5, false),
-		g("S6-all", 3, p2, s6, 3, false),
-		g("S5r-all", 3, nil, s5r, 14, false),
+		g("S1-all", 2, nil, s1, 0.2, 0.5),
+		g("S4-all", 2, nil, s4, 0.2, 0.5),
+		g("S3-all", 3, p2, s3, 1, 3),
+		g("S7-all", 3, p2, s7, 1, 3),
+		g("S2-all", 3, nil, s2, 3, 14),
+		g("S5-all", 3, nil, s5, 5, 0),
+		g("S6-all", 3, p2, s6, 3, 0),
+		g("S5r-all", 3, nil, s5r, 14, 0),
 	}
 	// quick tier: two failures in the two-provider shapes, one in the three-provider shapes
 	ps = append(ps,
-		gf("S0-fault", 2, nil, s0, false, false, 2, 0, 2),
-		gf("S1-fault", 2, nil, s1, false, false, 2, 0, 4),
-		gf("S4-fault", 2, nil, s4, false, false, 2, 0, 6),
-		gf("S3-faultn", 3, p2, s3, false, true, 1, 0, 5),
-		gf("S7-faultn", 3, p2, s7, false, true, 1, 0, 5),
+		gf("S0-fault", 2, nil, s0, false, false, 2, 0, 6),
+		gf("S1-fault", 2, nil, s1, false, false, 2, 0, 11),
+		gf("S4-fault", 2, nil, s4, false, false, 2, 0, 17),
+		gf("S3-faultn", 3, p2, s3, false, true, 1, 0, 13),
+		gf("S7-faultn", 3, p2, s7, false, true, 1, 0, 13),
 		// thorough tier
 		gf("S0-faultx", 2, nil, s0, true, false, 0, 2, 4),
 		gf("S1-faultx", 2, nil, s1, true, false, 0, 2, 8),
@@ -1072,8 +1077,8 @@ func plans() []plan {
 		f("S3-full", 3, p2, s3, 1, 3, 2),
 		f("S2-full", 3, nil, s2, 1, 2, 1),
 		f("S5-full", 3, nil, s5, 1, 2, 1),
-		ff("S1-full-fault", 2, nil, s1, false, 1, 1, true, 0.5),
-		ff("S4-full-fault", 2, nil, s4, false, 1, 1, true, 0.5),
+		ff("S1-full-fault", 2, nil, s1, false, 1, 1, true, 1),
+		ff("S4-full-fault", 2, nil, s4, false, 1, 1, true, 1),
 		ff("S1-full-faultx", 2, nil, s1, true, 2, 2, false, 2),
 		ff("S4-full-faultx", 2, nil, s4, true, 2, 2, false, 2))
 	return ps
@@ -1099,7 +1104,11 @@ func TestCheck(t *testing.T) {
 				fmt.Sscan(v, &p.qenv)
 				p.tenv = p.qenv
 			}
-			list = append(list, d1x.Scenario{Name: p.sc.name, QuickBound: p.quick, ThoroughBound: p.thorough, QuickEnv: p.qenv, ThoroughEnv: p.tenv, Weight: p.weight, Judge: judge,
+			w := p.weight
+			if !c.Thorough() && p.qweight > 0 {
+				w = p.qweight
+			}
+			list = append(list, d1x.Scenario{Name: p.sc.name, QuickBound: p.quick, ThoroughBound: p.thorough, QuickEnv: p.qenv, ThoroughEnv: p.tenv, Weight: w, Judge: judge,
 				New: func() vsched.Harness { return &h{sc: p.sc, verbose: verbose} }})
 		}
 		var names []string
